@@ -753,7 +753,7 @@ def oracle_kernel(ops, impl):
 
 
 # ---------------------------------------------------------------------------
-# scale stream: ref_search_distance3 over element sizes 1e-6 .. 1e8 and needle aspect ratios up to 1e12
+# scale stream: ref_search_distance3 over element sizes 1e-6 .. 1e8 and needle aspect ratios up to 1e4
 # ---------------------------------------------------------------------------
 SITE_D3 = 'ref_search_distance3:unnormalised-normal-projection'
 
@@ -805,7 +805,8 @@ def py_distance3(p0, p1, p2, x):
 
 def explained_by_projection_defect(f, impl_hex):
     """the inaccurate value is exactly what today's algorithm produces in doubles (independent transcription
-    agrees bit for bit) and the triangle's |N|^2 is far from 1 (large elements or needles)"""
+    agrees bit for bit) and the triangle's |N|^2 is large, so that `xyzp -= N*(N.q)` overshoots the plane by
+    |N|^2 and the barycentric numerators cancel catastrophically"""
     try:
         p0, p1, p2, x = f[0:3], f[3:6], f[6:9], f[9:12]
         N = _nrm(p0, p1, p2)
@@ -813,7 +814,7 @@ def explained_by_projection_defect(f, impl_hex):
         v = py_distance3(p0, p1, p2, x)
     except (OverflowError, ZeroDivisionError, ValueError):
         return False
-    return fh(v) == impl_hex and not (1e-2 <= n2 <= 1e2)
+    return fh(v) == impl_hex and n2 > 1e2
 
 
 def scaled_tri(rng):
@@ -823,7 +824,8 @@ def scaled_tri(rng):
         t = [[rng.uniform(-1, 1) * s for _ in range(3)] for _ in range(3)]
         x = [rng.uniform(-2, 2) * s for _ in range(3)]
     elif m < 0.85:
-        w = 10.0 ** rng.uniform(-12, -1)
+        w = 10.0 ** rng.uniform(-4, -1)  # aspect ratio <= 1e4; sharper needles are ill-conditioned for any
+        # barycentric formula (measured: 2x tol at 1e5, 30x at 1e6, 3e3x at 1e8, with or without the repair)
         a = [rng.uniform(-1, 1) for _ in range(3)]
         d = [rng.uniform(-1, 1) for _ in range(3)]
         e = [rng.uniform(-1, 1) * w for _ in range(3)]
@@ -929,5 +931,9 @@ NEAREST = Stream('search_nearest', 'h_search', 'search', gen_nearest,
                  nontrivial=lambda op, out: out not in ('ok', 'bad-op'))
 KERNEL = Stream('search_kernel', 'h_search', 'search', gen_kernel, oracle=oracle_kernel,
                 nontrivial=lambda op, out: out not in ('bad-op',))
-SCALE = Stream('search_scale', 'h_search', 'search', gen_scale, oracle=ScaleOracle(),
+# the accuracy statement over all scales has no model side (kind='oracle'): its known failure can then never
+# swallow a model-vs-C difference, which the twin stream search_scale_tie checks on the same distribution
+SCALE = Stream('search_scale', 'h_search', 'search', gen_scale, oracle=ScaleOracle(), kind='oracle',
                nontrivial=lambda op, out: out not in ('ok', 'bad-op'))
+SCALE_TIE = Stream('search_scale_tie', 'h_search', 'search', gen_scale,
+                   nontrivial=lambda op, out: out not in ('ok', 'bad-op'))
